@@ -210,3 +210,11 @@ package operationparser
 //@ func (*Parser).GetRevealValue
 //@   requires cfgOK(p)
 //@   modifies tvCalls, tvFrom, tvUntil
+
+// ---- C08: the initial state of a long-form DID is accepted only in its canonical encoding ----
+// the segment text itself must be the base64url encoding of the canonical (JCS) form of a value; comparing decoded
+// bytes instead would admit other base64 spellings of the same bytes
+//@ func parseInitialState
+//@   results r, err
+//@   ensures err == nil ==> r != nil && r.Operation == operation.TypeCreate
+//@   ensures err == nil ==> b64ok(initialState) && (exists v any :: jcsOK(v) && initialState == b64(jcs(v)))
